@@ -28,7 +28,11 @@ pub fn parse_rules(text: &str) -> Result<Vec<Rule>, String> {
             continue;
         }
         let (id, rest) = line.split_once(':').ok_or_else(|| format!("rule without id: {}", line))?;
-        let (pat, rep) = rest.split_once("=>").ok_or_else(|| format!("rule without =>: {}", line))?;
+        // `===>` (used for per-function substitutions) lets pattern and replacement contain `=>` themselves (match arms)
+        let (pat, rep) = match rest.split_once("===>") {
+            Some(x) => x,
+            None => rest.split_once("=>").ok_or_else(|| format!("rule without =>: {}", line))?,
+        };
         let (pat, pat2) = match pat.split_once(";;") {
             Some((a, b)) => (a, Some(b)),
             None => (pat, None),
